@@ -554,8 +554,15 @@ func smoke(t *testing.T, r *evid.Run, dir string) {
 		return
 	}
 	got := make(chan []byte, 4)
+	var slowFor atomic.Int64 // nanoseconds every request takes before its body is read (a slow link)
 	hs := &http.Server{Handler: http.HandlerFunc(func(w http.ResponseWriter, req *http.Request) {
-		b, _ := io.ReadAll(req.Body)
+		b, err := io.ReadAll(req.Body)
+		if d := slowFor.Load(); d > 0 {
+			time.Sleep(time.Duration(d)) // (storing the object takes its time)
+		}
+		if err != nil || req.Context().Err() != nil {
+			return // the client has given up on this request: nothing was stored
+		}
 		if req.Method == "PUT" {
 			select {
 			case got <- b:
@@ -574,7 +581,7 @@ func smoke(t *testing.T, r *evid.Run, dir string) {
 	// the server as an embedding program creates it, in each of the legal configurations: the database handed
 	// over open (alone; with a DBPath/Key left in the configuration that name an OLDER database under another
 	// key - documented as ignored when DB is set; with a DBPath that names nothing), or opened by the server
-	for ci, kind := range []string{"db-only", "db-and-stale-dbpath", "db-and-dangling-dbpath", "dbpath-only"} {
+	for ci, kind := range []string{"db-only", "db-and-stale-dbpath", "db-and-dangling-dbpath", "dbpath-only", "slow-endpoint"} {
 		os.MkdirAll(filepath.Join(dir, fmt.Sprintf("smoke%d", ci), "old-state"), 0o700)
 		path := filepath.Join(dir, fmt.Sprintf("smoke%d", ci), "database")
 		oldPath := filepath.Join(dir, fmt.Sprintf("smoke%d", ci), "old-state", "database")
@@ -608,16 +615,30 @@ func smoke(t *testing.T, r *evid.Run, dir string) {
 			r.Extra("smoke_note", "server.New with a backup bucket could not be configured offline: "+err.Error())
 			return
 		}
+		wait := 20 * time.Second
+		if kind == "slow-endpoint" {
+			// every request takes eleven seconds to be answered (a slow link, a big database): well within the five
+			// minutes an upload is given
+			slowFor.Store(int64(11 * time.Second))
+			wait = 27 * time.Second
+		}
 		select {
+		case <-time.After(wait):
+			if kind == "slow-endpoint" {
+				r.Violation("slow-upload-abandoned", -1, "an endpoint that needs 11 s per request (an upload is given five minutes) received no complete start-up upload within 27 s from a server created by server.New", nil)
+				slowFor.Store(0)
+				cancel()
+				continue
+			}
+			r.Inconclusive("smoke (" + kind + "): no upload reached the loopback endpoint within 20 s")
 		case b := <-got:
+			slowFor.Store(0)
 			r.Distinct("smoke through server.New, " + kind)
 			r.Count("smoke_uploads", 1)
 			// (the SDK may use aws-chunked encoding on plain http; accept a body that contains the file)
 			if !bytes.Equal(b, want) && !bytes.Contains(b, want) {
 				r.Violation("smoke-backup-not-exact", -1, fmt.Sprintf("configuration %s: the start-up upload made by a server created with a backup bucket (%d bytes) is not the file of the database it serves (%d bytes)", kind, len(b), len(want)), nil)
 			}
-		case <-time.After(20 * time.Second):
-			r.Inconclusive("smoke (" + kind + "): no upload reached the loopback endpoint within 20 s")
 		}
 		cancel()
 	}
